@@ -193,7 +193,9 @@ def run_shard(mod, spec):
         dry_case = dict(case)
         dry_case["want_occ"] = True
         dry = evaluate(dry_case, pe.run_case(dry_case, scratch), "dry run")
-        if dry.get("status") == "completed":
+        if dry.get("status") == "completed" and case.get("no_sweep"):
+            res.count("bases_without_sweep_(long_idle_periods)")
+        elif dry.get("status") == "completed":
             plans, nsites = delay_plans(case, dry, mod, tier, rng)
             if case.get("start", "fork") != "fork":
                 # a spawned worker costs a fresh interpreter: sample the plans
@@ -210,7 +212,7 @@ def run_shard(mod, spec):
                 c["plan"] = pl
                 evaluate(c, pe.run_case(c, scratch), "1 delay" if len(pl) == 1 else f"{len(pl)} delays")
             # the same case without line-level delays but with GIL hand-offs forced every few statements
-            for ye in ((3, 11) if tier == "quick" else (2, 3, 5, 11, 37)):
+            for ye in (() if case.get("no_sweep") else (3, 11) if tier == "quick" else (2, 3, 5, 11, 37)):
                 c = dict(case)
                 c["yield_every"] = ye
                 evaluate(c, pe.run_case(c, scratch), f"yield every {ye} statements")
